@@ -236,7 +236,7 @@ let run_reader dir variant uefile phase =
     | pad :: fail :: body ->
       let bs = List.init pad (fun _ -> n_of_int 32) @ List.map n_of_int body in
       let res = match variant with
-        | "whole" -> if fail >= 0 then None else Some (Tok.tokenize_whole t true bs)
+        | "whole" -> if fail >= 0 && fail <= List.length bs then None else Some (Tok.tokenize_whole t true bs)
         | _ -> Reader.tokenize_stream t true (variant = "fixed") bs (if fail >= 0 then Some (n_of_int fail) else None) in
       if phase = "amps" then
         (match res with Some d -> List.iter (fun w ->
@@ -320,6 +320,20 @@ let run_match dir total_less =
                      cf_diff = (fun key s e ->
                        let k = String.concat "." (List.map (fun r -> string_of_int (int_of_n r)) key) in
                        Hashtbl.find_opt diffs (k, int_of_n s, int_of_n e)) } in
+         (* contract of the go-diff oracle (D1, D3): every recorded script is a valid edit script
+            between the target span and the document, without empty entries *)
+         let tarr = Array.of_list ids in
+         let bad = ref 0 and checked = ref 0 in
+         Hashtbl.iter (fun (k, s0, e0) ds ->
+           incr checked;
+           let span = Array.to_list (Array.sub tarr s0 (max 0 (min (Array.length tarr) e0 - s0))) in
+           let doc = List.find_opt (fun d ->
+             String.concat "." (List.map (fun r -> string_of_int (int_of_n r)) d.Match.cd_key) = k) c.docs in
+           let src = List.map int_of_n (ScoringProof.src ds) and dst = List.map int_of_n (ScoringProof.dst ds) in
+           let ok = (match doc with Some d -> dst = List.map int_of_n d.Match.cd_ids | None -> false)
+                    && src = span && List.for_all (fun (_, l) -> l <> []) ds in
+           if not ok then incr bad) diffs;
+         if !bad > 0 then pr "ORACLE-INVALID(%d/%d) " !bad !checked;
          let tset = mk_sset (List.length ids) q sums in
          (match Match.match_tokens cfg c.docs (List.map n_of_int ids) (List.map z_of_int lines)
                   (List.map z_of_int pseudo) tset with
@@ -334,8 +348,28 @@ let run_match dir total_less =
       flush_line ()
     | _ -> ())
 
+let run_normalize dir phase uefile =
+  let t = load_tok_tables dir uefile in
+  let seen = Hashtbl.create 64 in
+  iter_lines (fun line ->
+    let bs = List.map n_of_int (ints_of_line line) in
+    if phase = "amps" then
+      List.iter (fun w ->
+        if not (Hashtbl.mem seen w) then begin Hashtbl.add seen w (); pr_dot w; flush_line () end)
+        (Tok.tokenize_whole t false bs).Tok.d_amps
+    else begin
+      List.iteri (fun i b -> if i > 0 then pr " "; pr "%d" (int_of_n b)) (Normalize.normalize t bs);
+      flush_line () end)
+
+let run_tokwf dir =
+  let t = load_tok_tables dir "" in
+  print_endline (if TokWF.tables_wf t then "true" else "false")
+
 let () =
   match Sys.argv with
+  | [| _; "tokwf"; dir |] -> run_tokwf dir
+  | [| _; "normalize"; dir; "amps" |] -> run_normalize dir "amps" ""
+  | [| _; "normalize"; dir; "run"; uefile |] -> run_normalize dir "run" uefile
   | [| _; "match"; dir; tl |] -> run_match dir (tl = "total")
   | [| _; "reader"; dir; variant; "amps" |] -> run_reader dir variant "" "amps"
   | [| _; "reader"; dir; variant; "run"; uefile |] -> run_reader dir variant uefile "run"
